@@ -173,6 +173,25 @@ func genC03(g *Gen, tier string, idx int) *wire.Scenario {
 	if x.Keymap == "vi-command" {
 		sc.Script = append(sc.Script, tok("z", "self-insert"), tok("z", "self-insert"), tok("\x1b", "vi-movement-mode"))
 	}
+	if x.Local == "" && g.P(15) {
+		// something went on before: a history search by a pattern that was given up (nothing of it is left)
+		switch x.Keymap {
+		case "vi-command":
+			sc.Script = append(sc.Script, tok(Pick(g, []string{"/", "?"}), "vi-search"))
+			if g.P(50) {
+				sc.Script = append(sc.Script, tok("q", "search-char"))
+			}
+			sc.Script = append(sc.Script, tok("\x03", "abort-search"))
+		case "emacs":
+			if seq := g.Cat.ShortSeqFor("emacs", "non-incremental-reverse-search-history"); seq != "" {
+				sc.Script = append(sc.Script, tok(seq, "non-incremental-reverse-search-history"))
+				if g.P(50) {
+					sc.Script = append(sc.Script, tok("q", "search-char"))
+				}
+				sc.Script = append(sc.Script, tok(Pick(g, []string{"\x07", "\x03"}), "abort-search"))
+			}
+		}
+	}
 	if x.Local == "vi-visual" {
 		sc.Script = append(sc.Script, tok("v", "vi-visual-mode"))
 	}
